@@ -4,34 +4,37 @@ go 1.25.0
 
 require (
 	github.com/centrifugal/centrifuge v0.0.0
+	github.com/FZambia/eagle v0.2.0
 	github.com/centrifugal/protocol v0.21.1
-)
-
-require (
-	github.com/FZambia/eagle v0.2.0 // indirect
-	github.com/beorn7/perks v1.0.1 // indirect
-	github.com/cespare/xxhash/v2 v2.3.0 // indirect
-	github.com/google/uuid v1.6.0 // indirect
-	github.com/josharian/intern v1.0.0 // indirect
-	github.com/mailru/easyjson v0.7.7 // indirect
-	github.com/maypok86/otter/v2 v2.3.0 // indirect
-	github.com/munnerz/goautoneg v0.0.0-20191010083416-a7dc8b61c822 // indirect
-	github.com/planetscale/vtprotobuf v0.6.0 // indirect
-	github.com/prometheus/client_golang v1.24.1 // indirect
-	github.com/prometheus/client_model v0.6.2 // indirect
-	github.com/prometheus/common v0.70.1 // indirect
-	github.com/prometheus/procfs v0.21.1 // indirect
-	github.com/quagmt/udecimal v1.10.1 // indirect
-	github.com/redis/rueidis v1.0.77 // indirect
-	github.com/segmentio/asm v1.2.1 // indirect
-	github.com/segmentio/encoding v0.5.4 // indirect
-	github.com/shadowspore/fossil-delta v0.0.0-20241213113458-1d797d70cbe3 // indirect
-	github.com/stretchr/testify v1.12.1 // indirect
-	github.com/valyala/bytebufferpool v1.0.0 // indirect
-	go.yaml.in/yaml/v3 v3.0.5 // indirect
-	golang.org/x/sync v0.22.0 // indirect
-	golang.org/x/sys v0.47.0 // indirect
-	google.golang.org/protobuf v1.36.12 // indirect
+	github.com/cespare/xxhash/v2 v2.3.0
+	github.com/google/cel-go v0.30.0
+	github.com/google/uuid v1.6.0
+	github.com/maypok86/otter/v2 v2.3.0
+	github.com/planetscale/vtprotobuf v0.6.0
+	github.com/prometheus/client_golang v1.24.1
+	github.com/prometheus/client_model v0.6.2
+	github.com/quagmt/udecimal v1.10.1
+	github.com/redis/rueidis v1.0.77
+	github.com/segmentio/encoding v0.5.4
+	github.com/shadowspore/fossil-delta v0.0.0-20241213113458-1d797d70cbe3
+	github.com/stretchr/testify v1.12.1
+	golang.org/x/sync v0.22.0
+	google.golang.org/protobuf v1.36.12
+	cel.dev/expr v0.25.1
+	github.com/antlr4-go/antlr/v4 v4.13.1
+	github.com/beorn7/perks v1.0.1
+	github.com/josharian/intern v1.0.0
+	github.com/mailru/easyjson v0.7.7
+	github.com/munnerz/goautoneg v0.0.0-20191010083416-a7dc8b61c822
+	github.com/prometheus/common v0.70.1
+	github.com/prometheus/procfs v0.21.1
+	github.com/segmentio/asm v1.2.1
+	github.com/valyala/bytebufferpool v1.0.0
+	go.yaml.in/yaml/v3 v3.0.5
+	golang.org/x/exp v0.0.0-20240823005443-9b4947da3948
+	golang.org/x/sys v0.47.0
+	google.golang.org/genproto/googleapis/api v0.0.0-20240826202546-f6391c0de4c7
+	google.golang.org/genproto/googleapis/rpc v0.0.0-20240826202546-f6391c0de4c7
 )
 
 replace github.com/centrifugal/centrifuge => /repo
